@@ -45,6 +45,9 @@ fn profile() -> Profile<'static> {
         end_weights: [2, 4, 4, 1, 24, 3, 2, 1, 4],
         p_no_return_site: 50,
         p_pool_sub_name: 40,
+        // only names that no check looks up by name (`find_symbol` returns the first entry)
+        dup_names: &["strcpy", "gets", "memcpy", "printf"],
+        p_dup: 60,
     }
 }
 
